@@ -283,6 +283,12 @@ func VerifRun_C18d() {
 		files = append(files, "/w/"+fn+"/init.lua")
 		srcs = append(srcs, []byte("return 3\n"))
 	}
+	others := len(files) - 1
+	specfile := verifBool("specfile") // /w/<fn>.spec.lua: a file whose name merely starts with the module name
+	if specfile {
+		files = append(files, "/w/"+fn+".spec.lua")
+		srcs = append(srcs, []byte("return 6\n"))
+	}
 	call := "require"
 	if verifBool("dofile") {
 		call = "dofile"
@@ -309,8 +315,18 @@ func VerifRun_C18d() {
 			loaded = r.ReferValidStr
 		}
 	}
+	// known defect: a file whose name continues after the module name with a dot (x.spec.lua for module x) is
+	// indexed under the text before its first dot and taken for the module by the analysis, not by the requests
+	dclass := ""
+	if specfile && n == fn {
+		dclass = "C18-dotted-file-name"
+	}
+	if others == 0 && n6 == 0 {
+		// no file of the workspace is called <n>.lua or <n>/init.lua (at most <fn>.spec.lua exists)
+		verifViolation(dclass, "no file-not-found diagnostic although no file with the module's name exists")
+	}
 	if (loaded == "") != (n6 > 0) {
-		verifViolation("", "the file-not-found diagnostic (type 6) does not agree with whether the analysis loaded a file")
+		verifViolation(dclass, "the file-not-found diagnostic (type 6) does not agree with whether the analysis loaded a file")
 	}
 	pos := lsp.TextDocumentPositionParams{
 		TextDocument: lsp.TextDocumentIdentifier{URI: lsp.DocumentURI("file://" + files[0])},
@@ -318,7 +334,7 @@ func VerifRun_C18d() {
 	locs, _ := l.TextDocumentDefine(context.Background(), pos)
 	ends := func(s, suf string) bool { return len(s) >= len(suf) && s[len(s)-len(suf):] == suf }
 	if loaded == "" && len(locs) > 0 {
-		verifViolation("", "go-to-definition on the module string opens a file although the analysis found none")
+		verifViolation(dclass, "go-to-definition on the module string opens a file although the analysis found none")
 	}
 	if loaded != "" {
 		ok := false
@@ -326,11 +342,11 @@ func VerifRun_C18d() {
 			if ends(string(lc.URI), loaded) {
 				ok = true
 			} else {
-				verifViolation("", "go-to-definition on the module string leads to a file the analysis did not load")
+				verifViolation(dclass, "go-to-definition on the module string leads to a file the analysis did not load")
 			}
 		}
 		if !ok {
-			verifViolation("", "go-to-definition on the module string does not lead to the file the analysis loaded")
+			verifViolation(dclass, "go-to-definition on the module string does not lead to the file the analysis loaded")
 		}
 	}
 }
